@@ -1,6 +1,7 @@
 import HcipyVerif.Lemmas.NearField
 import HcipyVerif.Lemmas.FourierLinkC04
 import HcipyVerif.Lemmas.NearFieldExec
+import HcipyVerif.Lemmas.NearFieldGRat
 import HcipyVerif.Lemmas.NearFieldTensor
 
 /-!
@@ -913,6 +914,34 @@ applies to the centred transfer function it is given) of the sampled transfer fu
 theorem transfer_function_is_ifftshifted {p : Params} (hb : impulseBranch p = false)
     (Dir : Fin (my p) × Fin (mx p) → ℂ) (m : Fin (my p) × Fin (mx p)) :
     modelD p Dir m = shiftD (my p) (mx p) (sampledTF p) (m.1 : ℕ) (m.2 : ℕ) := modelD_eq_shiftD hb Dir m
+
+/-! ### what the driver op `filt` computes denotes the complex pipeline
+
+The driver runs `filterP` / `filterPBackward` at the scalar type `GRat` (Gaussian rationals) with the kernels
+`gKerF`, `gKerB` (powers of `i`, exact for the internal sizes 1, 2, 4) and the scale `1/(My·Mx)`.  The complex numbers
+its output denotes are the output of the *same definitions* at `ℂ` with the kernels `exp(∓2πi n/M)` — the operator of
+`filterP_linear`, `filterP_adjoint`, `filterP_power_nonincreasing`, … — applied to the complex numbers the inputs denote. -/
+
+theorem filt_forward_denotes_complex_pipeline (p : Params) (hy : my p = 1 ∨ my p = 2 ∨ my p = 4)
+    (hx : mx p = 1 ∨ mx p = 2 ∨ mx p = 4) (D x : ℕ → ℕ → GRat) (ky kx : ℕ) :
+    GRat.toC (filterP p (gKerF (my p)) (gKerF (mx p)) (gKerB (my p)) (gKerB (mx p))
+        ⟨1 / ((my p * mx p : ℕ) : ℚ), 0⟩ D x ky kx)
+      = filterP p (kF (my p)) (kF (mx p)) (kB (my p)) (kB (mx p)) (((my p * mx p : ℕ) : ℂ)⁻¹)
+          (fun a b => GRat.toC (D a b)) (fun a b => GRat.toC (x a b)) ky kx := by
+  unfold filterP
+  rw [filterN_map GRat.toC GRat.toC_zero GRat.toC_add GRat.toC_mul, toC_scale,
+    funext (toC_gKerF hy), funext (toC_gKerF hx), funext (toC_gKerB hy), funext (toC_gKerB hx)]
+
+theorem filt_backward_denotes_complex_pipeline (p : Params) (hy : my p = 1 ∨ my p = 2 ∨ my p = 4)
+    (hx : mx p = 1 ∨ mx p = 2 ∨ mx p = 4) (D x : ℕ → ℕ → GRat) (ky kx : ℕ) :
+    GRat.toC (filterPBackward GRat.conj p (gKerF (my p)) (gKerF (mx p)) (gKerB (my p)) (gKerB (mx p))
+        ⟨1 / ((my p * mx p : ℕ) : ℚ), 0⟩ D x ky kx)
+      = filterPBackward (starRingEnd ℂ) p (kF (my p)) (kF (mx p)) (kB (my p)) (kB (mx p)) (((my p * mx p : ℕ) : ℂ)⁻¹)
+          (fun a b => GRat.toC (D a b)) (fun a b => GRat.toC (x a b)) ky kx := by
+  unfold filterPBackward filterNBackward
+  rw [filterN_map GRat.toC GRat.toC_zero GRat.toC_add GRat.toC_mul, toC_scale,
+    funext (toC_gKerF hy), funext (toC_gKerF hx), funext (toC_gKerB hy), funext (toC_gKerB hx)]
+  simp only [GRat.toC_conj]
 
 /-- The hypotheses of the pipeline theorems are satisfiable with a genuinely padded, exactly executable size
 (`2×3` padded to `4×4`, the kernels of which are powers of `i`: a case the driver op `filt` runs). -/
